@@ -284,7 +284,7 @@ class Interp:
         if name in mod.defs:
             node = mod.defs[name]
             if isinstance(node, (ast.FunctionDef, ast.AsyncFunctionDef)):
-                v = self.make_function(node, mod, None, node.name)
+                v = self.make_function(node, mod, None, node.name, apply_decorators=True)
             elif isinstance(node, ast.ClassDef):
                 v = self.make_class(node, mod)
             else:
@@ -365,11 +365,24 @@ class Interp:
         self.raise_builtin("NameError", f"name '{name}' is not defined")
 
     # ------------------------------------------------------------------ functions / classes
-    def make_function(self, node, mod, closure, qualname, owner=None):
+    def make_function(self, node, mod, closure, qualname, owner=None, apply_decorators=False):
+        pending = []
         for d in node.decorator_list:
             dn = deco_name(d)
             if dn.split(".")[-1] not in {k.split(".")[-1] for k in extract.KNOWN_DECORATORS} and dn not in self.reg.extra_decorators:
-                raise OutOfSubset(f"decorator @{dn} on {qualname} is outside the table of DESIGN 1.2")
+                if not apply_decorators:
+                    raise OutOfSubset(f"decorator @{dn} on {qualname} is outside the table of DESIGN 1.2")
+                pending.append(d)
+        if pending:
+            # a decorator defined in the repository: apply it by interpreting it (exactly what Python does at definition time)
+            fn = VFunc(node, mod, closure, qualname, owner=owner)
+            v = fn
+            for d in reversed(pending):
+                deco = self.eval(d, Env(parent=closure, module=mod))
+                if not isinstance(deco, (VFunc, VBound, VPartial)):
+                    raise OutOfSubset(f"decorator @{deco_name(d)} on {qualname} is neither in the table nor a repository function")
+                v = self.call(deco, [v], {})
+            return v
         if isinstance(node, ast.AsyncFunctionDef):
             raise OutOfSubset(f"async function {qualname}")
         return VFunc(node, mod, closure, qualname, owner=owner)
@@ -1849,6 +1862,10 @@ class Interp:
 
     def s_lower(self, n, env):
         return self.B.str_method(self, self.eval(n.args[0], env), "lower", [], {})
+
+    def s_gen_items(self, n, env):
+        v = self.eval(n.args[0], env)
+        return list(v.items) if isinstance(v, VGen) else self.iterate_all(v)
 
     def s_ghost(self, n, env):
         name = self.eval(n.args[0], env)
